@@ -42,6 +42,7 @@ def install():
 
     # ---- verify
     _need(pe, "mp", types.ModuleType)
+    _need(pe, "warnings", types.ModuleType)
     _need(pe, "wait")
     _need(pe, "threading", types.ModuleType)
     _need(pe, "sleep")
@@ -88,6 +89,7 @@ def install():
     re_.threading = prims.THREADING
     re_.cpu_count = lambda *a, **k: (_w.W.cpu_count if _w.W is not None else 2)
     re_.warnings = _TaskWarnings()
+    pe.warnings = _LoggedWarnings()
     lq.threading = prims.THREADING
     mpq.threading = prims.THREADING
     mpq.time = prims.TIME
@@ -118,6 +120,23 @@ class _TaskWarnings:
         t = w.cur if w is not None else None
         if t is not None and getattr(t, "warn_error", False):
             raise (message if isinstance(message, Warning) else (category or UserWarning)(message))
+        k.setdefault("stacklevel", 2)
+        return warnings.warn(message, category, *a, **k)
+
+
+class _LoggedWarnings:
+    """`warnings` as seen by loky.process_executor: every warning is also logged with the step and the amount of unresolved
+    work at that very moment (the respawn warning is issued by the manager right where it decides to respawn)."""
+
+    def __getattr__(self, name):
+        import warnings
+        return getattr(warnings, name)
+
+    def warn(self, message, category=UserWarning, *a, **k):
+        import warnings
+        w = _w.W
+        if w is not None and getattr(w, "warn_log", None) is not None:
+            w.warn_log.append((w.steps, str(message)[:80], w.pending_probe() if w.pending_probe else None))
         k.setdefault("stacklevel", 2)
         return warnings.warn(message, category, *a, **k)
 
